@@ -219,7 +219,7 @@ type trial struct {
 	writeErr    string
 	panicked    string
 
-	lastGen     int // generation of the last sentinels written
+	lastGen int // generation of the last sentinels written
 
 	cbCalls, cbMaxQ, cbDupSum int64
 	start                     time.Time
